@@ -7,6 +7,8 @@
      freq   <n> <d>
      trace  <fs|sg> <nops> (F <kind> <p1> <p2> <p3> <fr> | S <c> | D <c> | R) x nops <N> <times x N> <values x N>
             -> the values read after every op, concatenated (nops * N floats)
+     mg     <nops> <N> (P <N values> | A | F <kind> <p1> <p2> <p3> <fr> | S <c> | D <c> | R) x nops <times x N>
+            -> the values read at every R, concatenated (stack machine over multi-term FunctionSignals)
      fullgrid <lead> <trail> <N> <times x N>
      fsvalues <lead> <trail> <nf> (<kind> <p1> <p2> <p3> <fr>) x nf <N> <times x N> <L> <fvals x L>
    Output: one line of hex floats per case. *)
@@ -69,6 +71,24 @@ let () =
          let n = ni () in let times = nlist n in let values = nlist n in
          let tr = if which = "fs" then Filt.fs_trace times values Filt.fs_init ol else Filt.sg_trace times values ol in
          out_r (List.concat tr)
+       | "mg" ->
+         let k = ni () in
+         (* protocol: mg <nops> <N> ops... times *)
+         let nn = ni () in
+         let rec ops i acc = if i = 0 then List.rev acc else begin
+             let tag = toks.(!pos) in incr pos;
+             let op = (match tag with
+               | "P" -> Filt.MPush (nlist nn)
+               | "A" -> Filt.MAdd
+               | "F" -> let kind = ni () in let p1 = nf () in let p2 = nf () in let p3 = nf () in let fr = ni () = 1 in
+                        Filt.MFilter (resp kind p1 p2 p3, fr)
+               | "S" -> Filt.MScale (nf ())
+               | "D" -> Filt.MDiv (nf ())
+               | _ -> Filt.MRead) in
+             ops (i - 1) (op :: acc) end in
+         let ol = ops k [] in
+         let times = nlist nn in
+         out_r (List.concat (Filt.mg_run times [] ol))
        | "fullgrid" ->
          let lead = nf () in let trail = nf () in let n = ni () in let times = nlist n in
          out_r (Filt.full_times times lead trail (Filt.sig_dt times))
